@@ -68,7 +68,7 @@ def run(ctx):
                'float32 memmap compared with a bound of 3e-7*(1+max|log10 F|) dex; float32 (1E) tables with 1e-7 dex (scipy interpolates them in float32)',
                'chi^2 ties between distances: any minimiser accepted')
     ctx.require_events('Fitter.__init__:post', 'Fitter.fit:post', 'grid_checked')
-    ctx.require_regimes('range:exact-multiple-of-step', 'limit_penalised', 'unit:flux-not-mJy', 'apertures:per-band-tables', 'n=1', 'n=2', 'n>2', 'beyond_table', 'av_clipped', 'av_interior', 'best_first', 'best_mid',
+    ctx.require_regimes('step:written-as-integer', 'range:exact-multiple-of-step', 'limit_penalised', 'unit:flux-not-mJy', 'apertures:per-band-tables', 'n=1', 'n=2', 'n>2', 'beyond_table', 'av_clipped', 'av_interior', 'best_first', 'best_mid',
                         'best_last', 'style:v1', 'style:v2name', 'style:v2wav', 'memmap_on', 'memmap_off', 'unit:pc', 'unit:cm', 'angle:arcmin', 'angle:deg')
     n_pkg = 14 if ctx.quick else 160
     n_rng = 3
@@ -82,7 +82,10 @@ def run(ctx):
         wav = gen.band_wavelengths(rng, n_bands)
         style = ['v1', 'v2name', 'v2wav', 'v1'][(ip + ctx.shard) % 4] if ip < 8 else str(rng.choice(['v1', 'v2name', 'v2wav']))
         fmt = str(rng.choice(['D', 'E']))
-        step = float(rng.choice([0.01, 0.02, 0.025, 0.05, 0.1, 0.3])) if ip % 4 != 3 else float(rng.choice([0.125, 0.25, 0.5, 1.0]))      # (dyadic steps: see 'exact-multiple')
+        step = float(rng.choice([0.01, 0.02, 0.025, 0.05, 0.1, 0.3])) if ip % 4 != 3 else [1.0, 0.25, 0.5, 0.125][((ip // 4) + ctx.shard) % 4]      # (dyadic steps: see 'exact-multiple')
+        if step == 1.0:
+            step = 1          # written to models.conf as 'logd_step = 1' (no decimal point)
+            ctx.regime('step:written-as-integer')
         aps = gen.aperture_table(rng, n_ap)
         conv = gen.conv_grid(rng, n_models, n_bands, n_ap=n_ap)
         if fmt == 'E':
